@@ -3,6 +3,7 @@ import Revm.Proofs.Evm
 import Revm.Proofs.EvmStepTable
 import Revm.Proofs.EvmHost
 import Revm.Proofs.EvmSpec
+import Revm.Proofs.EvmRefineMain
 /-! C01 — "For every pre-state, block environment, valid transaction and hardfork from Frontier to Prague, executing the
 transaction yields the same outcome class, the same gas used, the same return data and logs, and the same post-state as
 the Ethereum execution specification."
@@ -256,30 +257,89 @@ with the specification's state discipline — every subroutine SAVES the state i
 it (EELS `begin_transaction` / `rollback_transaction`), accessed sets, transient storage and logs included — instead of
 the code's journal of undo entries. The statement: for every pre-state, oracle, environment, transaction and SpecId,
 the model (= the code, by correspondence) and the specification yield the same outcome class, gas used, refund, return
-data, created address, logs and post-state of the touched accounts. -/
+data, created address, logs and post-state of the touched accounts (and, when the model stops with an error of the
+model — panic, fatal database / precompile error, missing oracle answer, fuel — the specification stops with the same
+kind of error).
+
+The pre-state is a database with 256-bit balances (the model's words are unbounded naturals) and a FAITHFUL
+`has_storage` (`dbHasStorage = true`; with the default `has_storage = false` the creation rules themselves differ from
+the execution specification — the known findings of C20 / C21 — and C06's revert theorem is stated under `DbOk`). -/
 
 open Revm.Spec.Evm in
 def FullStatement_transact_refines_spec : Prop :=
-  ∀ (fuel spec : Nat) (pre : List PreAcct) (dbHasStorage : Bool) (oracle : List PcAnswer) (e : Evm.Env),
-    ObsEq (Evm.transact fuel (freshWorld spec pre dbHasStorage oracle) e spec)
-          (Spec.Evm.transact fuel (freshWorld spec pre dbHasStorage oracle) e spec)
+  ∀ (fuel spec : Nat) (pre : List PreAcct) (oracle : List PcAnswer) (e : Evm.Env),
+    (∀ p ∈ pre, p.balance < W) →
+    ObsEq (Evm.transact fuel (freshWorld spec pre true oracle) e spec)
+          (Spec.Evm.transact fuel (freshWorld spec pre true oracle) e spec)
 
 open Revm.Spec.Evm in
-/-- PROVED of `FullStatement_transact_refines_spec`:
-* here: every transaction that validation does not accept (rejected, or failing before execution) — for every world, not
-  only fresh ones;
-* `step_*_agrees`: the pure instruction families are the Yellow-Paper rules (`Spec/EvmRules.lean`), with the `Spec.Arith`
-  meaning of the word operations;
-* `host_*_agrees`: the state-reading host answers are those of the abstract (journal-free) state;
-* `transact_gas_bounds`: the handler's gas arithmetic after the first frame;
-* `transact_fuel_independent`: both sides are independent of the fuel once it suffices.
-MISSING for the full statement: (1) `journal revert = snapshot restore` under the observation (C06's revert theorem —
-stated there, being proved separately) lifted through the frame machine by a simulation over `CpOps`; (2) the CALL /
-CREATE gas bookkeeping across frames (63/64 rule, stipend, returned gas) against an EELS-style rule — here both sides
-share it; (3) precompile internals and signature recovery, which are oracle inputs on both sides. The statement itself
-is exercised on every transaction of the correspondence stream and on every shipped reference vector: the driver prints
-the specification's answer next to the model's (Spec column), and `./check` compares the implementation with both. -/
-theorem transact_refines_spec_partial (fuel : Nat) (w : World) (e : Evm.Env) (spec : Nat)
+/-- PROVED of `FullStatement_transact_refines_spec`: the statement for EVERY COMPLETED ADMISSIBLE RUN — every program,
+transaction type, SpecId, depth of nesting and fuel. `transactStrict` is the model (`Evm.transact`, journal of undo
+entries) with the two admissibility conditions of C06 checked at run time (Spec/EvmStrict.lean): `set_code` only on an
+account with empty code, `create_account_checkpoint` only on a target not yet created in this transaction. A completed
+strict run IS a run of the model with the same result (`Proofs.EvmRefine.strict_is_model`), and the specification then
+completes with the same outcome and the same observable post-state.
+
+How: the generic simulation over the subroutine discipline (`Proofs/EvmSim.lean`, `EvmSimTx.lean`: `runLoop_sim`,
+`transactWith_sim` — host answers, frame creation, frame return, validation, pre- and post-execution as obligations on a
+relation between configurations), instantiated with `CfgRel` (`Proofs/EvmRefineCfg.lean`): the journal state is
+observably the snapshot state (`JRel`: same domain, same account contents up to code caches and the representation of
+unread slots), and every open checkpoint carries the C06 history since it was taken (`Chain`), so that a failing frame
+closes by C06's `revert_restores` (no panic, `AbsEq` with the state at the checkpoint) plus what undo keeps
+(`revert_rel`), a successful one by folding its history into the enclosing one. The other admissibility conditions of
+C06 are DISCHARGED from the frame machine: the caller of a creation is funded (`make_create_frame` checks it, the nonce
+bump and the load of the target keep it), the `has_storage` answer is faithful, `initial_account_load` only runs before
+the first checkpoint (`load_accounts`), a reverted checkpoint is the innermost open one.
+
+MISSING for the full statement: (1) that every run of the model is admissible, i.e. `transactStrict` completes whenever
+`Evm.transact` does — true when `keccak256` address derivation does not collide within a transaction (a created
+address is fresh; the code of an address under creation can only change by its own `create_return`), which this
+development does not assume; (2) the error direction: a model-level error (`panic` / `fatal` / `oracleMiss` /
+`outOfFuel`) of the journal machine is the same kind of error of the snapshot machine — the simulation is proved for
+completed runs only; (3) as before, the CALL / CREATE gas bookkeeping across frames, precompile internals and signature
+recovery are shared by both sides (oracle inputs / the same functions), so nothing is claimed about them here. -/
+theorem transact_refines_spec_partial (fuel spec : Nat) (pre : List PreAcct) (oracle : List PcAnswer) (e : Evm.Env)
+    (hbal : ∀ p ∈ pre, p.balance < W)
+    (hrun : ∃ x, transactStrict fuel (freshWorld spec pre true oracle) e spec = .ok x) :
+    ObsEq (Evm.transact fuel (freshWorld spec pre true oracle) e spec)
+          (Spec.Evm.transact fuel (freshWorld spec pre true oracle) e spec) := by
+  obtain ⟨x, hx⟩ := hrun
+  exact Proofs.EvmRefine.transact_refines_spec_of_strict fuel _ e spec
+    (Proofs.EvmRefine.start_fresh spec pre oracle hbal) x hx
+
+open Revm.Spec.Evm in
+/-- the hypotheses are satisfiable, with a run that reverts a subroutine: a call with value to a contract that writes a
+storage slot and reverts (`PUSH1 1 PUSH1 0 SSTORE PUSH1 0 PUSH1 0 REVERT`) — the journal undoes the transfer, the touch,
+the warming and the write; the specification restores the snapshot -/
+example : ∃ x, transactStrict 50
+    (freshWorld 17 [{ addr := 0xaa, balance := 10^18, nonce := 0, code := [], codeHash := Evm.KECCAK_EMPTY, storage := [] },
+      { addr := 0xbb, balance := 1, nonce := 1, code := [0x60, 0x01, 0x60, 0x00, 0x55, 0x60, 0x00, 0x60, 0x00, 0xfd],
+        codeHash := 0x1234, storage := [] }] true [])
+    { block := { gasLimit := 30000000, basefee := 7, prevrandao := some 0, blobGasPrice := some 1 },
+      tx := { caller := 0xaa, gasLimit := 100000, gasPrice := 10, to := some 0xbb, value := 5, nonce := some 0 } }
+    17 = .ok x :=
+  Proofs.Evm.exists_of_isOk (by decide +kernel)
+
+open Revm.Spec.Evm in
+/-- the same from any world that satisfies `Start` (not only a fresh one): the journal has its transaction level, code
+caches hold the code of their hash, the address list is the domain of the state map, faithful `has_storage`, 256-bit
+balances, journal well-formedness -/
+theorem transact_refines_spec_from (fuel : Nat) (w : World) (e : Evm.Env) (spec : Nat)
+    (hw : Proofs.EvmRefine.Start w) (hrun : ∃ x, transactStrict fuel w e spec = .ok x) :
+    ObsEq (Evm.transact fuel w e spec) (Spec.Evm.transact fuel w e spec) := by
+  obtain ⟨x, hx⟩ := hrun
+  exact Proofs.EvmRefine.transact_refines_spec_of_strict fuel w e spec hw x hx
+
+open Revm.Spec.Evm in
+/-- a completed admissible run is a run of the model: the strict machine only adds two checks -/
+theorem transactStrict_is_transact (fuel : Nat) (w : World) (e : Evm.Env) (spec : Nat) (x : Evm.Outcome × World)
+    (h : transactStrict fuel w e spec = .ok x) : Evm.transact fuel w e spec = .ok x :=
+  Proofs.EvmRefine.strict_is_model fuel w e spec x h
+
+open Revm.Spec.Evm in
+/-- independently of admissibility: every transaction that validation does not accept (rejected, or failing before
+execution), for every world -/
+theorem transact_refines_spec_not_accepted (fuel : Nat) (w : World) (e : Evm.Env) (spec : Nat)
     (h : ∀ x, preverify w e (GasCalc.canon spec) ≠ .ok (some x)) :
     ObsEq (Evm.transact fuel w e spec) (Spec.Evm.transact fuel w e spec) :=
   Proofs.Evm.refines_spec_of_not_accepted fuel w e spec h
